@@ -189,6 +189,15 @@ func c11Run(j vs.Job) *vs.JobResult {
 			})
 		}
 	}
+	// one message is 2.3 s late (below the 3 s timeout): a latency spike; nothing may hang because of it
+	for k := firstK; k <= nC2S; k++ {
+		k := k
+		add(func(wp *wParams) { wp.MsgFaults = []wMsgFault{{"c2s", k, "slow:2300"}} })
+	}
+	for k := 1; k <= nS2C; k++ {
+		k := k
+		add(func(wp *wParams) { wp.MsgFaults = []wMsgFault{{"s2c", k, "slow:2300"}} })
+	}
 	// both directions go silent around the same point
 	for k := firstK; k <= nC2S && k <= nS2C; k++ {
 		k := k
@@ -266,7 +275,7 @@ func init() {
 		ID:    "C11",
 		Level: "fault_enumeration",
 		Rule: "per configuration: connection silence / write error from every message index on in either direction (after the handshake began) and in both at once; every k-th call of every local I/O seam (destination write, source read, archive read/write) failing; " +
-			"the source shrinking on disk before every k-th read; silence after a pause/continue cycle (every 2nd message index); thorough: every schedule with <=1 deviation (preemption, select alternative, timer landing first) on top of each fault",
+			"the source shrinking on disk before every k-th read; silence after a pause/continue cycle (every 2nd message index); one message 2.3 s late at every index; thorough: every schedule with <=1 deviation (preemption, select alternative, timer landing first) on top of each fault",
 		Assumptions: []string{"timeout > 0 (3 s virtual); a timeout <= 0 asks for no bound and nothing is asserted", "the bound asserted is 2*timeout + 3 s; the maximum observed is reported",
 			"pumps that live as long as the connection by design are excluded from the leak oracle by spawn site"},
 		QuickBudget: 110, ThoroughBudget: 1500, DiedIsViolation: true,
